@@ -128,7 +128,7 @@ func impliesPositive(f Fact, ttl ssa.Value) bool {
 }
 
 func c10PositiveTTL(w *World, r *Report, ci *types.Named) {
-	ri := r.Rule("C10.1", 8, "every cache store is guarded by a test implying TTL > 0 for the stored TTL (a non-positive TTL means 'never expires' in the in-memory cache)")
+	ri := r.Rule("C10.1", 6, "every cache store is guarded by a test implying TTL > 0 for the stored TTL (a non-positive TTL means 'never expires' in the in-memory cache)")
 	nth := map[string]int{}
 	for _, c := range cacheCalls(w, ci, "Set") {
 		fn := c.Parent()
@@ -607,7 +607,7 @@ func cacheTTLFields(w *World) map[*types.Var]bool {
 }
 
 func c10ZeroDisables(w *World, r *Report, ci *types.Named) {
-	ri := r.Rule("C10.4", 6, "a cache TTL of zero disables caching: the cache is consulted only through the 'cache enabled' edge")
+	ri := r.Rule("C10.4", 4, "a cache TTL of zero disables caching: the cache is consulted only through the 'cache enabled' edge")
 	fields := cacheTTLFields(w)
 	// also koanf/json-decoded TTL of the client-credentials config: a *time.Duration field named TTL with a cache_ttl tag
 	for _, p := range w.Pkgs {
@@ -909,7 +909,7 @@ func cacheDerived(w *World, ci *types.Named, v ssa.Value, depth int) (bool, stri
 }
 
 func c10NoWriteBack(w *World, r *Report, ci *types.Named) {
-	ri := r.Rule("C10.8", 8, "a value served from the cache is never stored again (that would extend its lifetime beyond its validity)")
+	ri := r.Rule("C10.8", 6, "a value served from the cache is never stored again (that would extend its lifetime beyond its validity)")
 	nth := map[string]int{}
 	for _, c := range cacheCalls(w, ci, "Set") {
 		fn := c.Parent()
@@ -985,6 +985,26 @@ func c10OverridePresence(w *World, r *Report) {
 						}
 					}
 				}
+			}
+			// the same for an assignment kept under an if: every way to the store passes a value test
+			valueTest := func(f Fact) bool {
+				if f.Kind != FCmp || !(isZeroConst(f.Y) || isZeroConst(f.X)) {
+					return false
+				}
+				x := f.X
+				if isZeroConst(x) {
+					x = f.Y
+				}
+				if decodedOption(x, "cache_ttl") {
+					return true
+				}
+				if u, isU := x.(*ssa.UnOp); isU && u.Op == token.MUL && decodedOption(u.X, "cache_ttl") {
+					return true
+				}
+				return false
+			}
+			if ok2 && len(fn.Blocks) > 0 && st.Block() != fn.Blocks[0] && onlyVia(fn, st.Block(), valueTest) {
+				ok2, msg = false, "the override is assigned only behind a value test (compared with 0) instead of a presence test: a rule-level cache_ttl of 0s is ignored and the prototype's TTL stays in force"
 			}
 			r.Ob(ri, w.FnName(fn)+"|ttl-override-presence", st.Pos(), ok2, msg)
 		})
